@@ -322,6 +322,7 @@ func (p *Process) Run() {
 			if !ok {
 				tasks = nil
 			} else {
+				verifPoint("run.task_received", p.Name(), t.TempDir())
 				// Sending FIFOs for the task
 				for oname, oip := range t.OutIPs {
 					if oip.doStream {
@@ -334,14 +335,17 @@ func (p *Process) Run() {
 				}
 
 				// Execute task in separate go-routine
+				verifPoint("run.spawn", p.Name(), t.TempDir())
 				go t.Execute()
 
 				startedTasks = append(startedTasks, t)
 			}
 		case <-startedTasks.NextTaskDone():
 			nextTask, startedTasks = startedTasks[0], startedTasks[1:]
+			verifPoint("run.head_done", p.Name(), nextTask.TempDir())
 			for oname, oip := range nextTask.OutIPs {
 				if !oip.doStream { // Streaming (FIFO) outputs have been sent earlier
+					verifPoint("run.send", p.Name(), oname, oip.Path())
 					p.Out(oname).Send(oip)
 				}
 				// Remove any FIFO file
@@ -395,6 +399,7 @@ func (p *Process) createTasks() (ch chan *Task) {
 			}
 
 			// Create task and send on the channel we are about to return
+			verifPoint("ct.round_received", p.Name())
 			ch <- NewTask(p.workflow, p, p.Name(), p.CommandPattern, inIPs, p.PathFuncs, p.PortInfo, params, tags, p.Prepend, p.CustomExecute, p.CoresPerTask)
 
 			// If we have no in-ports nor param in-ports, we should break after the first iteration
